@@ -47,12 +47,15 @@ META = {
         "the last storage slot of that cotangent is ignored by every backward pass",
     ],
     "partial": [
-        "Exp/Log local Jacobians: proved for so3/SO3 at the closed-form branch and at 0 (so3Exp_hasTangent, …); for se3/rxso3/sim3 "
-        "the Q-block / Ws-block derivative is not proved in Lean (identities Jl·JlInv=1 etc. are) — those ride on the "
-        "192-bit finite-difference oracle; see notes/C04.md",
+        "local Jacobians of the transcendental nodes: proved in Lean for so3 Exp (closed-form branch and zero vector: so3_Jl is the "
+        "derivative of so3_Exp) and SO3 Log (regime 1: so3_Jl_inv is the derivative of Log); for se3/rxso3/sim3 Exp (Q block, Ws "
+        "block), the SE3/RxSO3/Sim3 logarithms, regimes 2-3 of SO3_Log and Jinvp (autograd of built-in ops = contract dJ) they are "
+        "hypotheses (`TransSpec`) of gradient_exact_partial and ride on the 192-bit finite-difference oracle; every program over "
+        "{Inv, @, Act, Act4, Adj, AdjT, matrix()} is covered unconditionally (gradient_exact_algebraic)",
         "sim3/Sim3 Exp and Log backward use the documented truncated series: oracle comparison only where "
-        "|ad xi|^6/5040·e^|ad xi| is below the tolerance, otherwise correspondence with the truncated model only",
-        "float rounding of the backward passes is measured (tolerance above), not proved",
+        "30*|ad xi|^6/5040*e^|ad xi| <= 1e-2, otherwise correspondence with the (equally truncated) model only",
+        "float rounding of the backward passes is measured (tolerance 4*sqrt(eps)*scale; 1e4*eps for float64 programs outside the "
+        "cancellation bands of (1-cos t)/t^2), not proved",
     ],
 }
 
@@ -951,6 +954,10 @@ def contract(c, J):
     return torch.tensordot(c, torch.Tensor.as_subclass(J, torch.Tensor), dims=c.dim()).double()
 
 
+def contract_abs(c, J):
+    return torch.tensordot(c.abs(), torch.Tensor.as_subclass(J, torch.Tensor).abs(), dims=c.dim()).double()
+
+
 def route_grads(case, route):
     """c·J through one of the other public routes"""
     P = U.pp()
@@ -988,7 +995,7 @@ def route_grads(case, route):
         J = J if isinstance(J, tuple) else (J,)
     else:
         raise AssertionError(route)
-    return [contract(c, j) for j in J]
+    return [contract(c, j) for j in J], [contract_abs(c, j) for j in J]
 
 
 ROUTES = ["jacobian", "jacobian-vectorize", "jacrev", "modjac", "modjac-vectorize"]
@@ -999,23 +1006,25 @@ def check_routes(ctx: Ctx, case, r) -> bool:
     node = from_json(case["prog"])
     ps = prog_str(node)[:160]
     ok = True
-    t = 64 * common.EPS[case["dtype"]] if case["dtype"] == "float64" else 4 * math.sqrt(common.EPS["float32"])
+    # same backward passes through other batching machinery (per-row vjp, vmap): agreement up to re-association
+    # round-off of the contraction, i.e. relative to sum |c_i| |J_ij|
+    t = 1e-9 if case["dtype"] == "float64" else 4 * math.sqrt(common.EPS["float32"])
     for route in case.get("routes", ROUTES):
         ctx.count("routes." + route)
         try:
-            gs = route_grads(case, route)
+            gs, gabs = route_grads(case, route)
         except Exception as e:
             c2 = dict(case, route=route, exception=f"{type(e).__name__}: {str(e)[:200]}")
             ctx.fail(c2, f"raises: {route} of {ps} raised {type(e).__name__}: {str(e)[:100]}")
             ok = False
             continue
-        for li, (a, b) in enumerate(zip(gs, r.grads)):
+        for li, (a, b, ab) in enumerate(zip(gs, r.grads, gabs)):
             b = torch.zeros_like(a) if b is None else b
             if tuple(a.shape) != tuple(b.shape):
                 ctx.fail(dict(case, route=route), f"route: {route} gradient shape {tuple(a.shape)} vs {tuple(b.shape)} for {ps}")
                 ok = False
                 continue
-            sc = 1.0 + float(b.abs().max()) if b.numel() else 1.0
+            sc = 1.0 + (float(b.abs().max()) + float(ab.max()) if b.numel() else 0.0)
             if r.cmax is not None:
                 sc += r.cmax
             err = float((a - b).abs().max()) if b.numel() else 0.0
@@ -1045,9 +1054,9 @@ def run_routes(ctx: Ctx, n_cases: int):
 
 def run(ctx: Ctx):
     torch.set_num_threads(max(1, min(4, int(os.environ.get("OMP_NUM_THREADS", "4")))))
-    run_local(ctx, ctx.pick(2, 12))
-    run_prog(ctx, ctx.pick(170, 2600))
-    run_routes(ctx, ctx.pick(16, 300))
+    run_local(ctx, ctx.pick(2, 10))
+    run_prog(ctx, ctx.pick(170, 2400))
+    run_routes(ctx, ctx.pick(16, 240))
 
 
 def search(ctx: Ctx):
